@@ -301,12 +301,17 @@ impl Circuit {
                     expected_parties,
                 ));
             }
-            let input_wires: usize = input_gates.iter().sum();
+            let Some(input_wires) = input_gates
+                .iter()
+                .try_fold(0usize, |sum, &n| sum.checked_add(n))
+            else {
+                return Err(FromBristolError::MalformedLine(line_str));
+            };
             (input_gates, input_wires)
         };
 
         // Parse output line
-        let (mut output_gates, num_output_wires) = {
+        let (mut output_gates, num_output_wires, lines) = {
             let (parts, line_str) = parse_line(lines.next())?;
             if parts.len() < 2 {
                 return Err(FromBristolError::MalformedLine(line_str));
@@ -319,8 +324,25 @@ impl Circuit {
                     num_outputs,
                 ));
             }
-            let num_output_wires = gates_per_output.iter().sum::<usize>();
-            (vec![0; num_output_wires], num_output_wires)
+            let Some(num_output_wires) = gates_per_output
+                .iter()
+                .try_fold(0usize, |sum, &n| sum.checked_add(n))
+            else {
+                return Err(FromBristolError::MalformedLine(line_str));
+            };
+            // Every non-input wire is assigned by exactly one gate line, so a header that declares
+            // more wires than the file can assign (or fewer wires than inputs / outputs) is
+            // malformed. Checking this here also bounds all allocations by the size of the file.
+            let lines: Vec<String> = lines.collect();
+            if input_wires_num > wires_num
+                || num_output_wires > wires_num
+                || wires_num - input_wires_num > lines.len()
+            {
+                return Err(FromBristolError::MalformedLine(format!(
+                    "{_gates_num} {wires_num}"
+                )));
+            }
+            (vec![0; num_output_wires], num_output_wires, lines)
         };
 
         // Create the wires map to map the wires in the Bristol format to the wires in the Garble format.
